@@ -623,7 +623,7 @@ fn step_task(s: &MState, t: usize, p: &Prog, pol: &Policy) -> Step {
             if *closed {
                 fin!(R_CLOSED)
             }
-            if *avail >= *k && (!*fair || queue.is_empty()) {
+            if *k == 0 || (*avail >= *k && (!*fair || queue.is_empty())) {
                 *avail -= *k;
                 fin!(R_OK)
             }
@@ -636,7 +636,7 @@ fn step_task(s: &MState, t: usize, p: &Prog, pol: &Policy) -> Step {
             if *closed {
                 fin!(R_CLOSED)
             }
-            if *avail >= *k && (!*fair || queue.is_empty()) {
+            if *k == 0 || (*avail >= *k && (!*fair || queue.is_empty())) {
                 *avail -= *k;
                 fin!(R_OK)
             }
